@@ -188,7 +188,9 @@ func checkC18(r *RunResult) []Violation {
 			}
 		}
 	}
-	if r.Leak != "" {
+	if r.Deadlock != "" {
+		out = append(out, Violation{Prop: "C18", Clause: "deadlock", Msg: "cycle in the wait-for graph of the proxy's mutexes: " + trunc(r.Deadlock, 900)})
+	} else if r.Leak != "" {
 		out = append(out, Violation{Prop: "C18", Clause: "goroutines-stuck-at-teardown", Msg: trunc(r.Leak, 400)})
 	}
 	// how many different command kinds ran while a request was in progress
